@@ -829,9 +829,12 @@ def suite_apply_matcher(rng, n, stats):
         log = []
         if use_tok:
             base = rng.choice([Jaccard().get_raw_score, Cosine().get_raw_score, Dice().get_raw_score,
-                               OverlapCoefficient().get_raw_score, lambda a, b: len(set(a) & set(b))])
+                               OverlapCoefficient().get_raw_score, lambda a, b: len(set(a) & set(b)),
+                               lambda a, b: len(set(a) & set(b)) > 0,                                    # a bool is a number too
+                               lambda a, b: float('inf') if set(a) == set(b) else len(set(a) ^ set(b))])  # and +inf a float
         else:
-            base = rng.choice([Levenshtein().get_raw_score, lambda a, b: float(len(a) == len(b)), lambda a, b: abs(len(a) - len(b))])
+            base = rng.choice([Levenshtein().get_raw_score, lambda a, b: float(len(a) == len(b)), lambda a, b: abs(len(a) - len(b)),
+                               lambda a, b: a == b])
         if rng.random() < 0.3:
             base = Offset(base, rng.choice([0, 1, 0.25])).score
 
@@ -892,6 +895,9 @@ def norm_scores(resp):
         for r in fr['rows']:
             if j < len(r) and isinstance(r[j], dict) and 'i' in r[j]:
                 r[j] = {'f': f2hex(float(r[j]['i']))}
+            elif j < len(r) and isinstance(r[j], dict) and r[j].get('o') in ('bool:True', 'bool:False'):
+                # a bool score next to NaN (another chunk's missing pair) is stored as 1.0 / 0.0 by pandas
+                r[j] = {'f': f2hex(1.0 if r[j]['o'] == 'bool:True' else 0.0)}
     return resp
 
 
@@ -955,7 +961,7 @@ from py_stringsimjoin.profiler.profiler import profile_table_for_join           
 
 
 def gen_column(rng, stats):
-    kind = rng.choice(['int', 'float_int', 'float', 'object', 'str', 'float_allnan', 'empty_float', 'empty_object', 'bool', 'float_inf', 'float32'])
+    kind = rng.choice(['int', 'float_int', 'float', 'object', 'str', 'float_allnan', 'empty_float', 'empty_object', 'bool', 'float_inf', 'float32', 'nullable'])
     n = rng.randint(1, 8)
     nan_p = rng.choice([0.0, 0.3, 0.7])
     if kind == 'int':
@@ -965,6 +971,10 @@ def gen_column(rng, stats):
     elif kind == 'float':
         s = pd.Series([np.nan if rng.random() < nan_p else rng.choice([1.5, 2.0, 0.1, 1e-7, 123456.789, 1e16, -3.25, 7.0]) for _ in range(n)],
                       dtype='float64')
+    elif kind == 'nullable':
+        # pandas' nullable extension dtypes (known finding K9: the converter cannot interpret them)
+        dt = rng.choice(['Int64', 'UInt8', 'Float64'])
+        s = pd.Series([None if rng.random() < nan_p else rng.randint(0, 200) for _ in range(n)], dtype=dt)
     elif kind == 'float32':
         # narrower float dtypes are float columns too (values exactly representable in float16)
         s = pd.Series([np.nan if rng.random() < nan_p else rng.choice([1.5, 2.0, 0.25, -3.0, 7.0, 1024.0]) for _ in range(n)],
